@@ -211,3 +211,35 @@ pub fn c13_columns_empty_row_oob() {
     let _ = row.get(i);
     assert!(false, "MUST-PANIC: ReadColumns::get(i) on an empty row returned a cell");
 }
+
+// @h prop=C13 tier=quick kind=proof inst="ReadColumns / ReadSlice iterators (region-backed and owned-borrowed): announced length" bounds="columns rows of 3 and 2 cells, slice items of 2 and 1 bytes (symbolic); hints taken fresh and after one step" desc="size_hint is exact and ExactSizeIterator::len() agrees with the item's len() (no panic), before and after advancing"
+#[cfg_attr(kani, kani::proof, kani::unwind(8))]
+pub fn c13_read_item_iterators_exact_size() {
+    use flatcontainer::{ColumnsRegion, IntoOwned, MirrorRegion, Push, Region, SliceRegion};
+    let w = sym::bytes::<3>();
+    let v = sym::bytes::<2>();
+    let mut c = ColumnsRegion::<MirrorRegion<u8>>::default();
+    let iw = c.push(w.as_slice());
+    let iv = c.push(v.as_slice());
+    let row = c.index(iw);
+    let mut it = row.iter();
+    assert!(it.size_hint() == (3, Some(3)) && it.len() == 3 && row.len() == 3, "C13: a region-backed row iterator announces a length that differs from len()");
+    let _ = it.next();
+    assert!(it.size_hint() == (2, Some(2)) && it.len() == 2, "C13: a row iterator's announced length is wrong after advancing");
+    assert!(c.index(iv).iter().len() == 2, "C13: second row's iterator announces a different length");
+    let owned: Vec<u8> = w.to_vec();
+    let brow = <ColumnsRegion<MirrorRegion<u8>> as Region>::ReadItem::borrow_as(&owned);
+    assert!(brow.iter().len() == 3 && brow.len() == 3, "C13: an owned-borrowed row iterator announces a different length");
+    let mut s = SliceRegion::<MirrorRegion<u8>>::default();
+    let _ = s.push(v.as_slice());
+    let i1 = s.push(w.as_slice());
+    let item = s.index(i1);
+    let mut jt = item.iter();
+    let (lo, hi) = jt.size_hint();
+    assert!(lo <= 3 && hi.map_or(true, |h| h >= 3), "C13: a slice item iterator's size hint is not a valid bound");
+    let _ = jt.next();
+    let (lo, hi) = jt.size_hint();
+    assert!(lo <= 2 && hi.map_or(true, |h| h >= 2) && jt.count() == 2, "C13: a slice item iterator's size hint is not a valid bound after advancing");
+    cover!(true, "end reached");
+    sym::forget((c, s, owned));
+}
